@@ -13,6 +13,7 @@ mod settings;
 mod tlsx;
 mod transport;
 mod util;
+mod wdsched;
 
 use std::fs::File;
 use std::io::{BufRead, BufReader, BufWriter, Write};
@@ -123,6 +124,7 @@ fn run_all(kind: &str, input: &str, outdir: &str, threads: usize, budget: Durati
                         let sc: Value = serde_json::from_str(&lines[i]).expect("scenario json");
                         let evs = match kind.as_str() {
                             "exchange" => match util::gs(&sc, "kind") {
+                                "bodyreplay" => exchange::run(&genx::body_replay_to_scenario(&sc)),
                                 "coding" => match genx::coding_row_to_scenario(&sc, i) {
                                     Some(x) => exchange::run(&x),
                                     None => vec![],
@@ -141,6 +143,7 @@ fn run_all(kind: &str, input: &str, outdir: &str, threads: usize, budget: Durati
                             "rt" => rt::run(&sc),
                             "happy" => happy::run(&sc),
                             "tls" => tlsx::run(&sc),
+                            "wdsched" => wdsched::run(&sc),
                             "charset" => {
                                 if util::gs(&sc, "kind") == "charset" {
                                     let thorough = std::env::var("VERIF_TIER").map(|t| t == "thorough").unwrap_or(false);
